@@ -1302,6 +1302,7 @@ func TestC03_R_PathsCollidingUnder32BitDigests(t *testing.T) {
 // of links.
 func TestC07_R_VeryLargeLinkWidths(t *testing.T) { veryLargeLinkWidths(t) }
 func TestC01_R_VeryLargeLinkWidths(t *testing.T) { veryLargeLinkWidths(t) }
+func TestC04_R_VeryLargeLinkWidths(t *testing.T) { veryLargeLinkWidths(t) }
 
 func veryLargeLinkWidths(t *testing.T) {
 	for _, c := range []struct{ w, chunks int }{{4097, 4097}, {4097, 4098}, {5000, 4098}, {5000, 9000}, {22311, 22311}, {30000, 30001}, {70000, 65537}} {
@@ -1327,7 +1328,7 @@ func veryLargeLinkWidths(t *testing.T) {
 			t.Fatalf("C01: link width %d, %d chunks: AsBytes returned %d bytes (err %v), want %d; first difference at %d", c.w, c.chunks, len(b), err, len(data), firstDiff(b, data))
 		}
 		rs, _ := rn.(datamodel.LargeBytesNode).AsLargeBytes()
-		for _, off := range []int64{2*4095 + 1, 2 * 4096, 2*4097 + 1, int64(len(data)) - 3} {
+		for _, off := range []int64{1, 3, 2*1023 + 1, 2*1024 + 1, 2*4095 + 1, 2 * 4096, 2*4097 + 1, int64(len(data)) - 3} {
 			if off < 0 || off >= int64(len(data)) {
 				continue
 			}
@@ -1435,3 +1436,208 @@ func TestC08_R_ConcurrentIndependentReaders(t *testing.T) {
 		t.Fatalf("C08: %d goroutines each reading their own reference-written directory (different fanouts) at the same time: %s", G, e)
 	}
 }
+
+// C01: neighbouring chunks of equal length that differ but agree under a common 32-bit checksum (CRC-32 IEEE and
+// Castagnoli, Adler-32, FNV-1a, murmur3): whatever the builder or the reader remembers about a chunk it has just handled
+// may not be keyed by such a checksum. Pairs are found by search over 400000 generated 16-byte chunks.
+func TestC01_R_NeighbouringChunksCollidingUnderWeakChecksums(t *testing.T) {
+	castagnoli := crc32.MakeTable(crc32.Castagnoli)
+	sums := []struct {
+		name string
+		f    func([]byte) uint32
+	}{
+		{"crc32-ieee", crc32.ChecksumIEEE},
+		{"crc32-castagnoli", func(b []byte) uint32 { return crc32.Checksum(b, castagnoli) }},
+		{"adler32", adler32.Checksum},
+		{"fnv-1a-32", func(b []byte) uint32 { h := fnv.New32a(); h.Write(b); return h.Sum32() }},
+		{"murmur3-32", func(b []byte) uint32 { return murmur3.Sum32(b) }},
+	}
+	const cs = 16
+	all := lcgBytes(400000*cs, 41, 0)
+	npairs := 0
+	for _, sum := range sums {
+		seen := map[uint32]int{}
+		found := 0
+		for i := 0; i < 400000 && found < 2; i++ {
+			a := all[i*cs : (i+1)*cs]
+			d := sum.f(a)
+			j, ok := seen[d]
+			if !ok {
+				seen[d] = i
+				continue
+			}
+			b := all[j*cs : (j+1)*cs]
+			if bytes.Equal(a, b) {
+				continue
+			}
+			found++
+			npairs++
+			for vi, data := range [][]byte{
+				append(append([]byte{}, a...), b...),
+				append(append([]byte{}, b...), a...),
+				append(append(append(append(append([]byte{}, a...), b...), a...), b...), []byte("tail")...),
+			} {
+				for _, w := range []int{2, 174} {
+					st := NewStore()
+					root, _, err := buildFile(st, data, fmt.Sprintf("size-%d", cs), w)
+					if err != nil {
+						t.Fatal(err)
+					}
+					if err := c01CheckRead(st, root, data, "Reify", 7); err != nil {
+						t.Fatalf("C01: file variant %d (width %d) of two neighbouring %d-byte chunks %x and %x, which agree under %s: %v", vi, w, cs, a, b, sum.name, err)
+					}
+					want, _, err := refImportFile(NewStore(), data, refFileOpts{Chunker: fmt.Sprintf("size-%d", cs), Width: w, RawLeaves: true, CidV1: true})
+					if err != nil || want != root {
+						t.Fatalf("C07: the same file: builder %s, reference %s (err %v)", root, want, err)
+					}
+				}
+			}
+		}
+	}
+	if npairs < 6 {
+		t.Fatalf("harness: only %d colliding chunk pairs found", npairs)
+	}
+}
+
+// C12: whole-value reads (AsBytes) of files of 40 and 136 MiB with one block unavailable, the storage error being a bare
+// io.EOF / io.ErrUnexpectedEOF (what a reader that pre-sizes its buffer for large files and fills it with io.ReadFull
+// would take for "less content than recorded") or another value: an error, never the file's prefix as if it were all.
+func TestC12_R_VeryLargeFileWholeValueFaults(t *testing.T) {
+	for i, n := range []int{40<<20 + 3, 136<<20 + 1} {
+		fc := bigFile(t, n, "", 174)
+		all := fc.Tree.All()
+		var leaves []*FileNode
+		for _, nd := range all[1:] {
+			if len(nd.Kids) == 0 {
+				leaves = append(leaves, nd)
+			}
+		}
+		picks := []*FileNode{leaves[1], leaves[len(leaves)/2], leaves[len(leaves)-1]}
+		for j, nd := range picks {
+			for k, bare := range []error{io.EOF, io.ErrUnexpectedEOF, nil} {
+				if i == 1 && (j+k)%2 == 1 {
+					continue // (the larger file: half of the combinations)
+				}
+				fc.St.Missing = map[cid.Cid]bool{nd.Cid: true}
+				fc.St.MissingIO = true
+				fc.St.MissingBare = bare
+				rn, err := loadReified(fc.St.LinkSystem(), fc.Root, "unixfs")
+				if err != nil {
+					t.Fatal(err)
+				}
+				got, rerr := rn.AsBytes()
+				fc.St.Missing, fc.St.MissingIO, fc.St.MissingBare = map[cid.Cid]bool{}, false, nil
+				if rerr == nil || rerr == io.EOF {
+					t.Fatalf("C12: AsBytes of a %d-byte file with the block at span %d.. unavailable (storage error: bare %v): err=%v and %d bytes returned", n, nd.Start, bare, rerr, len(got))
+				}
+			}
+		}
+	}
+}
+
+// C20 / C06: file nodes with 33 .. 200 links some of which are empty chunks (first, in the middle, last; distinct empty
+// blocks: an empty raw block and empty dag-pb leaves with different Data), flat and under an intermediate level: a full
+// read and a preload request every block, the empty ones included, in depth-first link order.
+func wideNodesWithEmptyChunks(t *testing.T, prop string) {
+	for _, width := range []int{33, 40, 174, 200} {
+		for _, nested := range []bool{false, true} {
+			var kids []*mnode
+			var sizes []uint64
+			var data []byte
+			emptyKinds := 0
+			for i := 0; i < width; i++ {
+				if i == 0 || i == width/2 || i == width/2+1 || i == width-1 {
+					// empty chunks, each a different block
+					emptyKinds++
+					var k *mnode
+					switch emptyKinds {
+					case 1:
+						k = &mnode{IsRaw: true, Raw: nil}
+					case 2:
+						k = &mnode{HasData: true, UFS: &ufsFields{Type: 2, FileSize: u64p(0)}}
+					case 3:
+						k = &mnode{HasData: true, UFS: &ufsFields{Type: 2, HasData: true, Data: []byte{}, FileSize: u64p(0)}}
+					default:
+						k = &mnode{HasData: true, UFS: &ufsFields{Type: 0}}
+					}
+					kids, sizes = append(kids, k), append(sizes, 0)
+					continue
+				}
+				c := lcgBytes(3, byte(i), 0)
+				kids, sizes = append(kids, &mnode{IsRaw: true, Raw: c}), append(sizes, 3)
+				data = append(data, c...)
+			}
+			interior := func(ks []*mnode, ss []uint64) (*mnode, uint64) {
+				m := &mnode{HasData: true, UFS: &ufsFields{Type: 2}}
+				tot := uint64(0)
+				for i, k := range ks {
+					m.Links = append(m.Links, mlink{Tsize: i64p(int64(ss[i])), Child: k})
+					m.UFS.BlockSizes = append(m.UFS.BlockSizes, ss[i])
+					tot += ss[i]
+				}
+				m.UFS.FileSize = u64p(tot)
+				return m, tot
+			}
+			root, _ := interior(kids, sizes)
+			if nested {
+				tail := &mnode{IsRaw: true, Raw: []byte("tail")}
+				inner, isz := interior(kids, sizes)
+				root, _ = interior([]*mnode{inner, tail}, []uint64{isz, 4})
+				data = append(data, "tail"...)
+			}
+			st := NewStore()
+			rc, err := root.store(st, st.LinkSystem())
+			if err != nil {
+				t.Fatal(err)
+			}
+			tree, err := st.FileTree(rc, 0)
+			if err != nil {
+				t.Fatal(err)
+			}
+			want := firstOccurrences(tree.PreOrder()[1:])
+			ls := st.LinkSystem()
+			for _, opName := range []string{"AsBytes", "io.Copy", "unixfs-preload"} {
+				got, err := c20Run(st, rc, func(pn datamodel.Node) error {
+					if opName == "unixfs-preload" {
+						_, err := ls.KnownReifiers["unixfs-preload"](lcS, pn, ls)
+						return err
+					}
+					rn, err := ls.KnownReifiers["unixfs"](lcS, pn, ls)
+					if err != nil {
+						return err
+					}
+					var b []byte
+					if opName == "AsBytes" {
+						b, err = rn.AsBytes()
+					} else {
+						rs, _ := rn.(datamodel.LargeBytesNode).AsLargeBytes()
+						var buf bytes.Buffer
+						_, err = io.Copy(&buf, rs)
+						b = buf.Bytes()
+					}
+					if err == nil && !bytes.Equal(b, data) {
+						return fmt.Errorf("bytes differ")
+					}
+					return err
+				})
+				if err != nil {
+					t.Fatalf("%s: file node with %d links (4 of them empty chunks, nested=%v) via %s: %v", prop, width, nested, opName, err)
+				}
+				if fmt.Sprint(got) != fmt.Sprint(want) {
+					missing := ""
+					gs := cidSet(got)
+					for i, c := range want {
+						if !gs[c] {
+							missing = fmt.Sprintf("; block #%d of the walk (%s) was never requested", i+1, c)
+							break
+						}
+					}
+					t.Fatalf("%s: file node with %d links (empty chunks first, in the middle and last; nested=%v) via %s: %d distinct blocks requested in an order that is not the depth-first walk of its %d blocks%s", prop, width, nested, opName, len(got), len(want), missing)
+				}
+			}
+		}
+	}
+}
+
+func TestC20_R_WideNodesWithEmptyChunks(t *testing.T) { wideNodesWithEmptyChunks(t, "C20") }
+func TestC06_R_WideNodesWithEmptyChunks(t *testing.T) { wideNodesWithEmptyChunks(t, "C06") }
